@@ -48,6 +48,7 @@ type chunkReader struct {
 	failWith  bool // the failure is returned together with the last bytes before failAt (n > 0 and an error in one Read)
 	failOnce  bool // the failure is reported by one Read only; afterwards the reader answers io.EOF
 	failed    bool
+	scribble  bool // the reader uses all of p as scratch space (io.Reader allows it): bytes beyond n are overwritten
 	pieceSize int // >0: fixed piece size instead of cuts
 	reads     int
 }
@@ -94,6 +95,11 @@ func (r *chunkReader) Read(p []byte) (int, error) {
 	}
 	n := copy(p, r.data[r.pos:end])
 	r.pos += n
+	if r.scribble {
+		for i := n; i < len(p); i++ {
+			p[i] = "\"x]}9"[i%5]
+		}
+	}
 	if r.failWith && r.failAt >= 0 && r.pos >= r.failAt && n > 0 {
 		r.failed = true
 		return n, errInjected
@@ -337,8 +343,10 @@ func c09Chunks(c *work.Ctx) {
 			for k := 1; k < n; k++ {
 				try(&chunkReader{data: b, cuts: []int{k}, eofWith: true, zeroAt: -1, failAt: -1}, fmt.Sprintf("cut at %d, EOF with the last piece", k), k)
 				try(&chunkReader{data: b, zeroAt: k, failAt: -1}, fmt.Sprintf("(0,nil) read at %d", k), k)
+				try(&chunkReader{data: b, cuts: []int{k}, scribble: true, zeroAt: -1, failAt: -1}, fmt.Sprintf("cut at %d, the reader overwrites the rest of the buffer it is given", k), k)
 			}
 			try(&chunkReader{data: b, eofWith: true, zeroAt: -1, failAt: -1}, "EOF with the only piece", -1)
+			try(&chunkReader{data: b, scribble: true, zeroAt: -1, failAt: -1}, "the reader overwrites the rest of the buffer it is given", -1)
 			for ps := 1; ps <= 17; ps++ {
 				try(&chunkReader{data: b, pieceSize: ps, zeroAt: -1, failAt: -1}, fmt.Sprintf("piece size %d", ps), ps)
 			}
